@@ -808,21 +808,33 @@ class QueryObjectDescriptor(SymbolicExpression[T], ABC):
         self, sources: Dict[int, HashedValue]
     ) -> Iterable[OperationResult]:
         """
-        Evaluate the selected variables by generating combinations of values from their evaluation generators.
+        Evaluate the selected variables one after the other, each under the bindings produced by the previous ones, so
+        that every result is one consistent assignment of the selected variables.
 
         :param sources: The current bindings.
-        :return: An Iterable of OperationResults for each combination of values.
+        :return: An Iterable of OperationResults, one per consistent assignment of the selected variables.
         """
-        var_val_gen = {
-            var: var._evaluate__(copy(sources), parent=self)
-            for var in self.selected_variables
-        }
-        for sol in generate_combinations(var_val_gen):
-            var_val = {var._id_: sol[var][var._id_] for var in self.selected_variables}
-            self._is_false_ = self._is_false_ or any(
-                sol[var].is_false for var in self.selected_variables
+        yield from self._evaluate_selected_variables_from_(0, sources, False)
+
+    def _evaluate_selected_variables_from_(
+        self, index: int, sources: Dict[int, HashedValue], is_false: bool
+    ) -> Iterable[OperationResult]:
+        """
+        Evaluate the selected variables starting from the given position.
+
+        :param index: The position of the next selected variable to evaluate.
+        :param sources: The bindings accumulated so far.
+        :param is_false: Whether any of the already evaluated selected variables is false.
+        """
+        if index == len(self.selected_variables):
+            self._is_false_ = is_false
+            yield OperationResult(sources, is_false, self)
+            return
+        var = self.selected_variables[index]
+        for value in var._evaluate__(copy(sources), parent=self):
+            yield from self._evaluate_selected_variables_from_(
+                index + 1, {**sources, **value.bindings}, is_false or value.is_false
             )
-            yield OperationResult({**sources, **var_val}, self._is_false_, self)
 
     @cached_property
     def _all_variable_instances_(self) -> List[Variable]:
